@@ -205,6 +205,13 @@ class Source:
         self.model = model  # aligned with the grid's own node/face numbering
         self.inputs = inputs  # objects the caller handed to the constructor
         self.gen_model = gen_model  # generator's mesh (None for repo files)
+        # every variable the source shipped, copied at open time (pristine)
+        self.shipped = {}
+        for n in grid._ds.variables:
+            try:
+                self.shipped[str(n)] = np.array(grid._ds[n].values)
+            except Exception:
+                pass
 
 
 def aligned_model(grid):
@@ -420,3 +427,45 @@ def make_scratch(base):
 
 def rm_scratch(d):
     shutil.rmtree(d, ignore_errors=True)
+
+
+# ----------------------------------------------------------------------------
+# element positions as the oracle sees them (independent of the grid's lazy derivations)
+# ----------------------------------------------------------------------------
+def element_lonlat(src, kind, grid=None):
+    """(lon_deg, lat_deg, xyz_unit) of the elements of ``kind`` ('nodes' | 'face centers' |
+    'edge centers').  Source-supplied centres are taken as shipped; otherwise centres are the
+    normalised mean of the corner unit vectors.  Edge ORDER is taken from the shipped table, else
+    from the grid's own edge_node_connectivity when a grid is given (order is C02's business),
+    else from the model."""
+    m = src.model
+    sh = src.shipped
+    if kind == "nodes":
+        return m.lon.copy(), m.lat.copy(), m.xyz()
+    if kind == "face centers":
+        if "face_lon" in sh and "face_lat" in sh:
+            lon, lat = sh["face_lon"].astype(float), sh["face_lat"].astype(float)
+            return lon, lat, M.unit(lon, lat)
+        if "face_x" in sh:
+            v = M.normalize(np.stack([sh["face_x"], sh["face_y"], sh["face_z"]], axis=-1))
+        else:
+            v = m.face_centres()
+        lon, lat = M.lonlat_of(v)
+        return lon, lat, v
+    if kind == "edge centers":
+        if "edge_lon" in sh and "edge_lat" in sh:
+            lon, lat = sh["edge_lon"].astype(float), sh["edge_lat"].astype(float)
+            return lon, lat, M.unit(lon, lat)
+        if "edge_x" in sh:
+            v = M.normalize(np.stack([sh["edge_x"], sh["edge_y"], sh["edge_z"]], axis=-1))
+        else:
+            if "edge_node_connectivity" in sh:
+                pairs = [tuple(map(int, r)) for r in sh["edge_node_connectivity"]]
+            elif grid is not None and "edge_node_connectivity" in grid._ds:
+                pairs = [tuple(map(int, r)) for r in np.asarray(grid._ds["edge_node_connectivity"].values)]
+            else:
+                pairs = m.edge_pairs()
+            v = m.edge_centres(pairs)
+        lon, lat = M.lonlat_of(v)
+        return lon, lat, v
+    raise ValueError(kind)
